@@ -17,7 +17,7 @@ class Outcome:
 
 
 def run_tree(built, box, files, config_yaml, do_check=True, do_edit=True, trace=True, lock=None, shim=False,
-             config_rel="Breadlog.yaml", timeout=120, ambient=None):
+             config_rel="Breadlog.yaml", timeout=120, ambient=None, env_extra=None):
     """files: rel -> bytes (below proj). Runs --check then edit on the same tree (check does not modify: C04).
 
     Returns Outcome with per-file reported offsets (from check) and tokens (from edit).
@@ -50,7 +50,7 @@ def run_tree(built, box, files, config_yaml, do_check=True, do_edit=True, trace=
         out.files[rel] = fo
     byabs = {os.path.join(box.proj, rel): rel for rel in files}
     if do_check:
-        rc = core.run_breadlog(built, box, cfg, check=True, trace=trace, timeout=timeout)
+        rc = core.run_breadlog(built, box, cfg, check=True, trace=trace, timeout=timeout, env_extra=env_extra)
         out.check = rc
         for path, line, col in rc.missing():
             rel = byabs.get(path) or byabs.get(os.path.normpath(path))
@@ -77,7 +77,7 @@ def run_tree(built, box, files, config_yaml, do_check=True, do_edit=True, trace=
                     out.files[rel].trace_check = t["entries"]
     out.lock_before = core.read_lock(lockp)
     if do_edit:
-        re_ = core.run_breadlog(built, box, cfg, check=False, trace=trace, shim=shim, timeout=timeout)
+        re_ = core.run_breadlog(built, box, cfg, check=False, trace=trace, shim=shim, timeout=timeout, env_extra=env_extra)
         out.edit = re_
         for rel, fo in out.files.items():
             try:
